@@ -88,6 +88,31 @@ mod proofs {
 	#[kani::proof]
 	#[kani::unwind(7)]
 	fn grid_partition_32() { grid_partition(32); }
+	// an empty box in ANY encoding (inverted on either axis, as set_empty / intersect_bbox of disjoint boxes leave it; fields are public)
+	fn grid_of_empty_box(size: u32) {
+		let level: u8 = kani::any(); kani::assume(level <= 31);
+		let max = ((1u64 << level) - 1) as u32;
+		let b = TileBBox { level, max, x_min: kani::any(), y_min: kani::any(), x_max: kani::any(), y_max: kani::any() };
+		kani::assume(b.x_max <= max && b.y_max <= max);
+		kani::assume(b.x_min > b.x_max || b.y_min > b.y_max);
+		kani::assume(b.x_max / size <= b.x_min / size + 1 && b.y_max / size <= b.y_min / size + 1);   // at most 2 x 2 candidate cells
+		let mut cells = 0u32;
+		for _cell in b.iter_bbox_grid(size) { cells += 1; }
+		assert!(cells == 0);    // no cell, and no panic on the way
+	}
+	// harness: kind=bounded bound="grid size 32, empty boxes in any encoding whose corner fields span at most 2 x 2 cells, any level" tier=quick props=C15,C08,C02 fn=TileBBox::iter_bbox_grid timeout=1200
+	#[kani::proof]
+	#[kani::unwind(7)]
+	fn grid_of_empty_box_32() { grid_of_empty_box(32); }
+	// harness: kind=canary expect=fail tier=quick props=C15,C08,C02 timeout=900
+	#[kani::proof]
+	#[kani::unwind(7)]
+	fn grid_quick_canary_must_fail() {
+		let b = TileBBox::new(6, 30, 30, 33, 33).unwrap();
+		let mut cells = 0u32;
+		for _cell in b.iter_bbox_grid(32) { cells += 1; }
+		assert!(cells == 0);   // wrong on purpose: the box touches four cells
+	}
 	// harness: kind=canary expect=fail tier=thorough props=C15 timeout=1800
 	#[kani::proof]
 	#[kani::unwind(7)]
